@@ -1464,7 +1464,7 @@ class HttpRule:
 
         body = http_rule.body or None
         # Ensure body doesn't conflict with reserved names.
-        if body in utils.RESERVED_NAMES and not body.endswith("_"):
+        if body in utils.RESERVED_NAMES:
             body += "_"
         return cls(method, uri, body)
 
